@@ -1,7 +1,7 @@
 From PG Require Import Lib.Strs Corr.Driver Model.GenFS.
 
 (* observation of one generate call:
-   outcome (0 = returned, 1 = "Differences found", 2 = injected failure at the stage),
+   outcome (0 = returned, 1 = "Differences found", 2 = injected failure at the stage, 4 = invalid package name),
    audit events (stage, kind, absolute path) as a set, and the paths below the project root that
    exist afterwards but not before / before but not afterwards (sets) *)
 Definition obs := (N * option stage * list (stage * kind * path) * list path * list path)%type.
@@ -13,7 +13,7 @@ Definition set_eqb {A} (eqb : A -> A -> bool) (a b : list A) : bool :=
   forallb (fun x => existsb (eqb x) b) a && forallb (fun y => existsb (eqb y) a) b.
 
 Definition outcome_code (o : outcome) : N * option stage :=
-  match o with Ok => (0, None) | DiffFound => (1, None) | Fail st => (2, Some st) end.
+  match o with Ok => (0, None) | DiffFound => (1, None) | Fail st => (2, Some st) | Invalid => (4, None) end.
 
 Definition model_obs (x : config * option stage * fs) : obs :=
   match x with
@@ -34,7 +34,7 @@ Definition obs_eqb (a b : obs) : bool :=
   end.
 
 Definition guards (x : config * option stage * fs) : list bool :=
-  match x with (c, _, _) => [wf_pkg c; guard_F10b c] end.
+  match x with (c, _, _) => [] end.
 
 Definition run (cases : list ((config * option stage * fs) * obs)) : list N :=
   report obs_eqb model_obs guards cases.
@@ -51,6 +51,6 @@ Definition model_obs_io (x : config * str * fs) : obs :=
        map fst (filter (fun kv => under (root c) (fst kv) && negb (exists_b s' (fst kv))) s))
   end.
 Definition guards_io (x : config * str * fs) : list bool :=
-  match x with (c, name, s) => [wf_pkg c; guard_F10b c; guard_F10c c name s] end.
+  match x with (c, name, s) => [] end.
 Definition run_io (cases : list ((config * str * fs) * obs)) : list N :=
   report obs_eqb model_obs_io guards_io cases.
